@@ -3,6 +3,7 @@ package main
 import (
 	"fmt"
 	"os"
+	"sort"
 )
 
 var checks = map[string]func(*Report){
@@ -28,7 +29,46 @@ var checks = map[string]func(*Report){
 	"C13": runC13,
 }
 
+// checkAll runs every check in this process, one after the other, sharing the instantiated corpus
+// between checks with the same options (validation runs over many repo variants; the registered
+// commands still run one check per process). Output: a `== Cnn exit=N` line after each check.
+func checkAll(tier string) int {
+	os.Setenv("VERIF_TIER", tier)
+	shareS3 = true
+	defer closeSharedS3()
+	var ids []string
+	for id := range checks {
+		ids = append(ids, id)
+	}
+	sort.Strings(ids)
+	worst := 0
+	for _, id := range ids {
+		r := NewReport(id)
+		func() {
+			defer func() {
+				if e := recover(); e != nil {
+					r.Break("checker panic: %v", e)
+				}
+			}()
+			checks[id](r)
+		}()
+		rc := r.Finish()
+		fmt.Printf("== %s exit=%d\n", id, rc)
+		if rc > worst {
+			worst = rc
+		}
+	}
+	return worst
+}
+
 func main() {
+	if len(os.Args) >= 2 && os.Args[1] == "checkall" {
+		tier := "quick"
+		if len(os.Args) > 2 {
+			tier = os.Args[2]
+		}
+		os.Exit(checkAll(tier))
+	}
 	if len(os.Args) < 3 || os.Args[1] != "check" {
 		fmt.Fprintln(os.Stderr, "usage: verif check <Cnn> [quick|thorough]")
 		os.Exit(2)
